@@ -44,6 +44,46 @@ fn cls(ops: &[Op]) -> String {
     ops.iter().map(|o| format!("L{}{}", o.level(), if o.is_word() { "w" } else { "" })).collect::<Vec<_>>().join("/")
 }
 
+/// the same tree with its identifier leaves a / b / c / d replaced by literals (a prefix minus directly on a digit, a
+/// postfix operator directly on a literal, a literal as call target ... are lexed differently from names)
+fn literal_leaves(t: &H, kind: usize) -> H {
+    fn m(h: &H, kind: usize) -> H {
+        if let H::Id(n) = h {
+            let k = match n.as_str() {
+                "a" => 0,
+                "b" => 1,
+                "c" => 2,
+                "d" => 3,
+                _ => return h.clone(),
+            };
+            return match kind {
+                0 => H::Num(F([3.0, 2.0, 5.0, 7.0][k])),
+                1 => H::Num(F([0.0, 1.5, 10.0, 0.25][k])),
+                2 => H::Str(["s", "", "t u", "é"][k].to_string()),
+                3 => [H::Bool(true), H::Null, H::Bool(false), H::Null][k].clone(),
+                _ => [H::List(vec![H::Num(F(1.0))]), H::Rec(vec![(Key::Static("k".into()), H::Num(F(1.0)))]), H::List(vec![]), H::Rec(vec![])][k].clone(),
+            };
+        }
+        let mut kids: Vec<H> = Vec::new();
+        h.for_children(&mut |c| kids.push(c.clone()));
+        let mut out = h.clone();
+        for (n, c) in kids.iter().enumerate() {
+            out = replace_nth_child(&out, n, &m(c, kind));
+        }
+        out
+    }
+    m(t, kind)
+}
+
+const LEAF_KINDS: [&str; 5] = ["integers", "fractions-and-zero", "strings", "bool-null", "list-record-literals"];
+
+fn check_tree_all_leaves(sink: &mut Sink, t: &H, class: &str) {
+    check_tree(sink, t, class);
+    for (k, name) in LEAF_KINDS.iter().enumerate() {
+        check_tree(sink, &literal_leaves(t, k), &format!("{} leaves={}", class, name));
+    }
+}
+
 fn part_table(ctx: &Ctx, sink: &mut Sink) {
     let a = || id("a");
     let b = || id("b");
@@ -57,8 +97,8 @@ fn part_table(ctx: &Ctx, sink: &mut Sink) {
             if !ctx.mine(idx) {
                 continue;
             }
-            check_tree(sink, &bin(o1, bin(o2, a(), b()), c()), &format!("pair-left {}", cls(&[o1, o2])));
-            check_tree(sink, &bin(o1, a(), bin(o2, b(), c())), &format!("pair-right {}", cls(&[o1, o2])));
+            check_tree_all_leaves(sink, &bin(o1, bin(o2, a(), b()), c()), &format!("pair-left {}", cls(&[o1, o2])));
+            check_tree_all_leaves(sink, &bin(o1, a(), bin(o2, b(), c())), &format!("pair-right {}", cls(&[o1, o2])));
         }
     }
     // triples x 5 tree shapes: all ops in thorough, representatives of every level/assoc/spelling class in quick
@@ -101,21 +141,21 @@ fn part_table(ctx: &Ctx, sink: &mut Sink) {
                 continue;
             }
             let k = format!("{:?}/{}", u, cls(&[o]));
-            check_tree(sink, &un(u, bin(o, a(), b())), &format!("prefix-over-binary {}", k));
-            check_tree(sink, &bin(o, un(u, a()), b()), &format!("binary-over-prefix-left {}", k));
-            check_tree(sink, &bin(o, a(), un(u, b())), &format!("binary-over-prefix-right {}", k));
+            check_tree_all_leaves(sink, &un(u, bin(o, a(), b())), &format!("prefix-over-binary {}", k));
+            check_tree_all_leaves(sink, &bin(o, un(u, a()), b()), &format!("binary-over-prefix-left {}", k));
+            check_tree_all_leaves(sink, &bin(o, a(), un(u, b())), &format!("binary-over-prefix-right {}", k));
         }
         let k = format!("{:?}", u);
-        check_tree(sink, &un(u, fact(a())), &format!("prefix-over-postfix {}", k));
-        check_tree(sink, &fact(un(u, a())), &format!("postfix-over-prefix {}", k));
-        check_tree(sink, &un(u, cl(id("f"))), &format!("prefix-over-call {}", k));
-        check_tree(sink, &un(u, idxe(a())), &format!("prefix-over-index {}", k));
-        check_tree(sink, &un(u, fld(a())), &format!("prefix-over-field {}", k));
-        check_tree(sink, &cl(un(u, a())), &format!("call-over-prefix {}", k));
-        check_tree(sink, &idxe(un(u, a())), &format!("index-over-prefix {}", k));
-        check_tree(sink, &fld(un(u, a())), &format!("field-over-prefix {}", k));
+        check_tree_all_leaves(sink, &un(u, fact(a())), &format!("prefix-over-postfix {}", k));
+        check_tree_all_leaves(sink, &fact(un(u, a())), &format!("postfix-over-prefix {}", k));
+        check_tree_all_leaves(sink, &un(u, cl(id("f"))), &format!("prefix-over-call {}", k));
+        check_tree_all_leaves(sink, &un(u, idxe(a())), &format!("prefix-over-index {}", k));
+        check_tree_all_leaves(sink, &un(u, fld(a())), &format!("prefix-over-field {}", k));
+        check_tree_all_leaves(sink, &cl(un(u, a())), &format!("call-over-prefix {}", k));
+        check_tree_all_leaves(sink, &idxe(un(u, a())), &format!("index-over-prefix {}", k));
+        check_tree_all_leaves(sink, &fld(un(u, a())), &format!("field-over-prefix {}", k));
         for &u2 in &[UOp::Neg, UOp::Not] {
-            check_tree(sink, &un(u, un(u2, a())), &format!("prefix-over-prefix {}/{:?}", k, u2));
+            check_tree_all_leaves(sink, &un(u, un(u2, a())), &format!("prefix-over-prefix {}/{:?}", k, u2));
         }
     }
     for &o in ALL_OPS.iter() {
@@ -124,19 +164,19 @@ fn part_table(ctx: &Ctx, sink: &mut Sink) {
             continue;
         }
         let k = cls(&[o]);
-        check_tree(sink, &fact(bin(o, a(), b())), &format!("postfix-over-binary {}", k));
-        check_tree(sink, &bin(o, fact(a()), b()), &format!("binary-over-postfix-left {}", k));
-        check_tree(sink, &bin(o, a(), fact(b())), &format!("binary-over-postfix-right {}", k));
-        check_tree(sink, &cl(bin(o, a(), b())), &format!("call-over-binary {}", k));
-        check_tree(sink, &idxe(bin(o, a(), b())), &format!("index-over-binary {}", k));
-        check_tree(sink, &fld(bin(o, a(), b())), &format!("field-over-binary {}", k));
-        check_tree(sink, &bin(o, cl(id("f")), idxe(b())), &format!("binary-over-call-index {}", k));
-        check_tree(sink, &bin(o, fld(a()), cl(id("g"))), &format!("binary-over-field-call {}", k));
+        check_tree_all_leaves(sink, &fact(bin(o, a(), b())), &format!("postfix-over-binary {}", k));
+        check_tree_all_leaves(sink, &bin(o, fact(a()), b()), &format!("binary-over-postfix-left {}", k));
+        check_tree_all_leaves(sink, &bin(o, a(), fact(b())), &format!("binary-over-postfix-right {}", k));
+        check_tree_all_leaves(sink, &cl(bin(o, a(), b())), &format!("call-over-binary {}", k));
+        check_tree_all_leaves(sink, &idxe(bin(o, a(), b())), &format!("index-over-binary {}", k));
+        check_tree_all_leaves(sink, &fld(bin(o, a(), b())), &format!("field-over-binary {}", k));
+        check_tree_all_leaves(sink, &bin(o, cl(id("f")), idxe(b())), &format!("binary-over-call-index {}", k));
+        check_tree_all_leaves(sink, &bin(o, fld(a()), cl(id("g"))), &format!("binary-over-field-call {}", k));
     }
-    check_tree(sink, &fact(fact(a())), "postfix-over-postfix");
-    check_tree(sink, &fact(cl(id("f"))), "postfix-over-call");
-    check_tree(sink, &cl(fact(a())), "call-over-postfix");
-    check_tree(sink, &idxe(fact(a())), "index-over-postfix");
+    check_tree_all_leaves(sink, &fact(fact(a())), "postfix-over-postfix");
+    check_tree_all_leaves(sink, &fact(cl(id("f"))), "postfix-over-call");
+    check_tree_all_leaves(sink, &cl(fact(a())), "call-over-postfix");
+    check_tree_all_leaves(sink, &idxe(fact(a())), "index-over-postfix");
     check_tree(sink, &fld(cl(idxe(a()))), "field-call-index chain");
 }
 
